@@ -292,7 +292,11 @@ type slhDsaSpec struct {
 
 func drawSlhDsa(t *rapid.T, label string, _ bool) (builder, string, uint32) {
 	var s slhDsaSpec
-	if rapid.IntRange(0, 9).Draw(t, label+"_small") == 0 {
+	// the slow small-signature sets (signing takes seconds) are the HIGH end of the draw: rapid's
+	// shrinker drives draws towards 0, and a failing case must shrink towards the cheap sets - with
+	// the slow sets at 0 one block of the shrinker (about 64 evaluations, not interrupted by the
+	// shrink deadline) took a quarter of an hour in a multi-signature case
+	if rapid.IntRange(0, 9).Draw(t, label+"_small") == 9 {
 		s.set = slhParamSets[6+rapid.IntRange(0, 5).Draw(t, label+"_param_set")]
 	} else {
 		s.set = slhParamSets[rapid.IntRange(0, 5).Draw(t, label+"_param_set")]
